@@ -78,6 +78,11 @@ CLAIMED = {
    text="Lean theorems in Dist (finite rational distributions): a RandomDictator round elects c with probability sum_b w_b*share_b(c)/W (a tied first place split evenly) and has total mass one; a BoostedRandomDictator round with c >= 2 remaining candidates is the 1/(c-1) : 1-1/(c-1) mixture of proportional-to-squares (score^2 / sum score^2) and RandomDictator; sequential uniform picks give each of the k! orders of a tied set probability 1/k! (for every k). Correspondence: every random.choices / random.uniform / numpy.random.choice / random.sample call of the implementation is compared with what the law needs at that round (population = current profile with its weights, squares vector, branch threshold, whole tied set sampled, winner = first of the drawn order); the model's round law computed in Dist is compared with the independently evaluated closed form; complete runs against the oracle reading of the model.",
    note="Trusted: Lean kernel + standard axioms; the laws of random.choices / numpy.random.choice (categorical), random.uniform and random.sample (sequential uniform picks) are ASSUMED - the theorems are conditional on them and no frequency test is used. Multi-seat law = product of step laws on the successively reduced profiles is not stated as a theorem (the per-round argument check covers every round). Open finding F-C01-d.",
    ref="DESIGN.md §4 C17"),
+
+ "C08": dict(
+   text="Lean theorems: every positional score (hence first-place, Borda, any vector) is invariant under permuting the ballots, under merging identical ballots (condensing) and under splitting a ballot into identical ballots whose weights add up; the points a ballot hands out and the head-to-head margins are equivariant under an injective renaming of candidate indices; margins are ballot-order invariant. The model is name-free, so renaming candidates with the declared order kept is the same model input and neutrality under renaming is the correspondence holding for arbitrary names. Metamorphic runs on the implementation: rename by a random bijection into a second name pool, permute ballots, split, merge, permute the declared candidate order - every round compared after un-renaming for all deterministic rules; a fixed script replayed in fresh interpreters under 2 (quick) / 8 (thorough) PYTHONHASHSEED values must give byte-identical canonical output.",
+   note="Trusted: Lean kernel + standard axioms. PARTIAL: equivariance / split-invariance of the STV family and of the multi-round composites is carried by the metamorphic runs and the correspondence, not by a theorem; hash-seed independence cannot be exhibited by a model (no hash in it) and is carried by the multi-interpreter replay only.",
+   ref="DESIGN.md §4 C08"),
 }
 TECH = "Lean 4 kernel-checked theorems over a hand-written executable model + differential correspondence check of the model against /repo/src + independent Python monitors"
 
